@@ -7,7 +7,7 @@
    lanes: sequences are 1-based, lane k (0-based) of a word is element k+1. *)
 EXTENDS Integers, Sequences, FiniteSets
 
-BmInitByte(B) == (B * 73 + (B \div 256) * 19 + 5) % 256
+BmInitByte(B) == ((B % 256) * 73 + ((B \div 256) % 256) * 19 + 5) % 256        \* = (73 B + 19 (B div 256) + 5) mod 256, overflow-free
 BmInit == <<>>                                              \* function byte address -> set of allowed values; growing domain
 BmGet(m, B) == IF B \in DOMAIN m THEN m[B] ELSE {BmInitByte(B)}
 
